@@ -1,5 +1,7 @@
 """C19 — analyses do not modify the data the caller passed in."""
 import copy
+
+import numpy as np
 import json
 
 import common
@@ -157,6 +159,10 @@ def matrix_clause(chk):
                          'fuzzy', 'matrix2tree', 'matrix2groups', 'mcl', 'link_clustering', '_cluster.flat', 'find_threshold',
                          'partition_density'])
         before = copy.deepcopy(m)
+        as_array = rng.random() < 0.4
+        if as_array:
+            # callers also pass numpy arrays (squareform output, LexStat matrices): they must be left alone just as lists are
+            m = np.array(m, dtype=float)
 
         def call():
             if fn.startswith('flat:'):
@@ -189,9 +195,9 @@ def matrix_clause(chk):
         except Exception as ex:  # noqa
             chk.hist['matrix-fn-raised:%s:%s' % (fn, type(ex).__name__)] += 1
             r1 = ('raised', type(ex).__name__)
-        chk.count((fn, tuple(map(tuple, before)), t), True, branch='matrix:' + fn)
-        if m != before:
-            fails.append((fn, before, t, 'matrix changed in place: %r -> %r' % (before[0], m[0])))
+        chk.count((fn, as_array, tuple(map(tuple, before)), t), True, branch=['matrix:' + fn, 'matrix-as-numpy-array:%s' % as_array])
+        if (m.tolist() if as_array else m) != before:
+            fails.append((fn + (' (numpy array)' if as_array else ''), before, t, 'matrix changed in place: %r -> %r' % (before[0], list(m[0]))))
             continue
         rng.setstate(st)
         try:
@@ -204,7 +210,7 @@ def matrix_clause(chk):
                    'calls=%d failures=%d' % (n, len(fails)))
     for f in sorted(fails, key=lambda f: len(f[1]))[:2]:
         chk.violation('%s: %s' % (f[0], f[3]), {'kind': 'matrix', 'fn': f[0], 'matrix': f[1], 'threshold': f[2], 'why': f[3]},
-                      key='ward-squares-in-place' if f[0] == 'flat:ward' else None)
+                      key='ward-squares-in-place' if f[0].startswith('flat:ward') else None)
 
 
 def run(chk):
